@@ -16,6 +16,7 @@ EXPLANATION = (
     "panicking arithmetic assert without a dominating comparison of that value; undischarged sites are exact keyed findings. Not decided: the strength of "
     "CRC-32 itself, byte-exact re-encoding (value-level), mis-decoding without panic."
     " (R5) every `remaining < N => TruncatedInstruction` guard of decode_instructions asks for at most the bytes the opcode's arm consumes (opcodes a compiled program can contain only)."
+    " (R1, extended) the verifier's mismatch edge ends in Err only and its match edge reaches Ok; (R6) check_alignment holds for every alignment the compiler can hand out and every offset that is a multiple of it."
 )
 
 READ_SRC = re.compile(r"ReadBytesExt::read_u(8|16|32|64|128)$|ReadBytesExt::read_i(8|16|32|64)$|::from_le_bytes$|::from_le$|ReadBytesExt::read_f(32|64)$")
